@@ -116,8 +116,8 @@ Proof. exact served_pop_state. Qed.
 Theorem c11_served_pop_record : forall now dbs dbi lf k, dcmd_recs now dbs dbi (pop_cmd lf k) None = [pop_cmd lf k].
 Proof. exact pop_recs. Qed.
 (** the wake-up of a waiting client by a push (Model/Blocking.v wake_client, delivery; the key has
-    not expired) is that event; whatever a wake-up does - deliver from the key, deliver from
-    another key of the client, put the element back, register the client again - it appends at
+    not expired) is that event; whatever a wake-up does - deliver from the key, put the element
+    back, register the client again and notify the heads of its other keys - it appends at
     most one record, the pop of the key that served the client *)
 Theorem c11_wakeup_is_served_pop :
   forall now s b u v d' cst,
